@@ -3,6 +3,9 @@
 Extra actions (interpreted by hooks installed on ProgModel):
   ["rel_rand", stream, scale, node, prio]   delay = stream.next_float() * scale (clock units)
   ["draw", stream, "f" | "b" | "i"]         consume one number from a stream (logged)
+  ["draw_dist", stream, d]                  one draw of distribution d (Normal, Exponential, LogNormal, Uniform,
+                                            Triangular) on that stream (logged)
+  ["rel_dist", stream, d, scale, node, prio] delay = |draw of distribution d| * scale
   ["obs_c", k]                              counter observation  (int)
   ["obs_t", v] / ["obs_t_rand", stream]     tally observation    (float)
   ["obs_w", w, v]                           weighted tally observation (weight, value)
@@ -110,6 +113,20 @@ def install(model, seeds, with_stats=True, reuse_streams=False, long_lived_produ
             from pydsol.core.streams import StreamInformation
             m.stream_info = StreamInformation()
             m.streams = [m.stream_info.get_stream("default")] + list(m.streams[1:])
+        # distributions on the streams: created per replication, or (with reuse_streams) long-lived objects whose
+        # stream is assigned again after the re-seeding - the way a model re-uses its distributions in an experiment
+        from pydsol.core.distributions import DistNormal, DistExponential, DistLogNormal, DistUniform, DistTriangular
+        ns_ = len(m.streams)
+        if reuse_streams and getattr(m, "dist_objects", None) and len(m.dist_objects[0]) == ns_:
+            for per_stream, st_obj in zip(zip(*m.dist_objects), m.streams):
+                for d_ in per_stream:
+                    d_.stream = st_obj
+        else:
+            m.dist_objects = [[DistNormal(so, 1.0, 0.5) for so in m.streams],
+                              [DistExponential(so, 1.0) for so in m.streams],
+                              [DistLogNormal(so, 0.0, 0.25) for so in m.streams],
+                              [DistUniform(so, 0.0, 2.0) for so in m.streams],
+                              [DistTriangular(so, 0.0, 1.0, 3.0) for so in m.streams]]
         m.draws = []
         m.reinit_log = []
         if with_stats:
@@ -159,6 +176,22 @@ def install(model, seeds, with_stats=True, reuse_streams=False, long_lived_produ
             else:
                 d = scale * u           # float * float, or Duration * float -> Duration
             m._sched("rel", d, a[3] % len(m.prog["nodes"]), a[4])
+        elif k == "draw_dist":
+            if not ns:
+                return
+            x = m.dist_objects[a[2] % len(m.dist_objects)][a[1] % ns].draw()
+            m.draws.append(float(x).hex())
+        elif k == "rel_dist":
+            if m.seq >= m.cap or not m.prog["nodes"] or not ns:
+                return
+            x = abs(float(m.dist_objects[a[2] % len(m.dist_objects)][a[1] % ns].draw()))
+            m.draws.append(x.hex())
+            scale = dec_sut(a[3])
+            if isinstance(scale, int) and not isinstance(scale, bool):
+                d = int(x * scale)
+            else:
+                d = scale * x
+            m._sched("rel", d, a[4] % len(m.prog["nodes"]), a[5])
         elif k == "draw":
             if not ns:
                 return
@@ -215,6 +248,8 @@ def stoch_actions(with_stats=True, reinit=False, cancel_old=False):
         acts = [
             (30, st.tuples(st.just("rel_rand"), stream, scale, node, PRIO)),
             (8, st.tuples(st.just("draw"), stream, st.sampled_from(["f", "b", "i"]))),
+            (6, st.tuples(st.just("draw_dist"), stream, st.integers(0, 4))),
+            (8, st.tuples(st.just("rel_dist"), stream, st.integers(0, 4), scale, node, PRIO)),
         ]
         if with_stats:
             acts += [
